@@ -333,7 +333,8 @@ def shards(tier):
     if K == 2:
         # three-step sequences in which an earlier save or reload could leave something stale behind
         for acts in (("read", "save", "mutate_ref"), ("mutate", "save", "mutate_ref"), ("read", "reload", "mutate"), ("assign", "save", "mutate_ref"),
-                     ("read", "save", "assign"), ("type_other", "save", "mutate"), ("save", "read", "mutate_ref")):
+                     ("read", "save", "assign"), ("type_other", "save", "mutate"), ("save", "read", "mutate_ref"),
+                     ("mutate", "save", "type_other"), ("read", "save", "type_other"), ("assign", "save", "type_other"), ("save", "type_other", "save")):
             out.append({"fn": "known", "consts": {"acts": list(acts)}, "timeout": 600, "twin": False, "cover": False})
     for k in range(0, K + 1):
         for acts in itertools.product(("leave", "read", "mutate", "save", "reload"), repeat=k):
